@@ -1,6 +1,7 @@
 package props
 
 import (
+	"os"
 	"fmt"
 	"math/rand"
 	"sort"
@@ -381,6 +382,60 @@ func (p c18) Run(c *core.Ctx, idx int) {
 				return
 			}
 			kind, pos = "container", fmt.Sprintf("recreate-dup%d", min(ndup, 2))
+		case kind == "entry" && opk == 9 && r.Intn(2) == 0 && plainKeys(pth):
+			// an upsert addressed to one entry whose payload states another key: the key of a sibling entry, or one no entry has.
+			// Either the edit is refused and nothing changes, or the entry carries the new key afterwards; what may not happen is two
+			// entries with one key, or an entry that is not found under the key its leaves hold (checked below for every operation)
+			pl := mparent.Lists[last.Name]
+			k0 := pl.S.Child(pl.S.Keys[0])
+			newKey := ""
+			target0 := "fresh"
+			if len(pl.Entries) > 1 && r.Intn(2) == 0 {
+				for _, e := range pl.Entries {
+					if e != mn && e.Leaves[k0.Name].V[0] != mn.Leaves[k0.Name].V[0] {
+						newKey = e.Leaves[k0.Name].V[0]
+						target0 = "sibling"
+					}
+				}
+			}
+			if newKey == "" {
+				newKey = dp.AbsentKeyComponent(r, k0.Type)
+				for _, e := range pl.Entries {
+					if e.Leaves[k0.Name].V[0] == newKey {
+						newKey = ""
+					}
+				}
+			}
+			if newKey == "" || k0.Type.Wrap == "leafref" {
+				continue
+			}
+			content := mn.Clone()
+			content.Leaves[k0.Name] = &dp.LVal{V: []string{newKey}}
+			desc = fmt.Sprintf("UpsertFrom entry %q with a payload whose key leaf %s says %q (%s)", pth.String(), k0.Name, newKey, target0)
+			src := dp.NewStore(s, nil).NodeAt(content)
+			if r.Intn(2) == 0 {
+				holder := dp.NewDNode(mparent.S)
+				holder.Lists[last.Name] = &dp.DList{S: mn.S, Entries: []*dp.DNode{content}}
+				if jn, jerr := nodeutil.ReadJSON(entryJSON(dp.EncodeJSON(s, holder, dp.JOpts{}), last.Name)); jerr == nil {
+					src = jn
+				}
+			}
+			if run(func(sel *node.Selection) error { return sel.UpsertFrom(src) }) {
+				return
+			}
+			if err != nil {
+				// refused: nothing changed
+				c.Count("rekey_refused")
+				err = nil
+			} else {
+				c.Count("rekey_accepted")
+				if os.Getenv("VERIF_DEBUG") != "" {
+					fmt.Fprintf(os.Stderr, "DEBUG accepted: %s src=%T\n", desc, src)
+				}
+				mn.Leaves[k0.Name] = &dp.LVal{V: []string{newKey}}
+			}
+			target.Problems() // a store noticing the key change is not what is being judged here
+			kind, pos = "entry", "rekey-"+target0
 		case kind == "list" || (lastDeleted != nil && opk == 9): // insert / re-insert an entry
 			var lst *dp.DList
 			var lpath dp.DPath
@@ -529,4 +584,14 @@ func (p c18) Run(c *core.Ctx, idx int) {
 		}
 	}
 	c.SetSample(map[string]interface{}{"yang": head(s.Yang(), 1200), "history": history})
+}
+
+// entryJSON cuts the single entry object out of {"<list>":[{...}]}.
+func entryJSON(doc, list string) string {
+	i := strings.Index(doc, "[")
+	j := strings.LastIndex(doc, "]")
+	if i < 0 || j < i {
+		return doc
+	}
+	return strings.TrimSpace(doc[i+1 : j])
 }
